@@ -127,20 +127,24 @@ QMay(i) == q0 + Card({j \in 1..(i - 1) : E[j].s = cur /\ E[j].k = "Arr"}) - 1
 AsyncEnters(m, i) == {j \in 1..(i - 1) : E[j].k = "Enter" /\ E[j].m = m /\ ~E[j].loc /\ Async(E[j].v)}
 DecisionIdx(m, i) == IF AsyncEnters(m, i) = {} THEN i ELSE CHOOSE j \in AsyncEnters(m, i) : \A x \in AsyncEnters(m, i) : x <= j
 FinalBeforeS(mm, sd) == \E j \in FinalIdx(mm) : E[j].s < sd
-\* mm sits inside an inline validator since before step sd and still does at index d: it holds no token
-SureInline(mm, d, sd) == \E j \in OpenInline(d) : E[j].m = mm /\ E[j].s < sd
-ValBefore(mm, d) == \E j \in ValIdx(mm) : j < d
-GlobalMay(m, d, sd) == {mm \in Msgs \ {m} : ValBefore(mm, d) /\ HasAsync(mm) /\ ~FinalBeforeS(mm, sd) /\ ~SureInline(mm, d, sd)}
-EnteredBefore(v, mm, d) == \E j \in 1..(d - 1) : E[j].k = "Enter" /\ E[j].v = v /\ E[j].m = mm /\ ~E[j].loc
+\* Everything below compares STEPS only: whatever moved in the step of the decision may have held a token at the decision
+\* (two jobs started in one step race for the tokens and their events may be stamped in either order); states that did not
+\* change in that step are exact.
+\* mm sits inside an inline validator since before step sd and is still there when step sd ends: it holds no token in step sd
+SureInline(mm, sd) == \E j \in 1..N : /\ E[j].k = "Enter" /\ E[j].m = mm /\ ~E[j].loc /\ ~Async(E[j].v) /\ E[j].s < sd
+                                       /\ ~\E x \in (j + 1)..N : E[x].k = "Exit" /\ SameInv(E[x], E[j]) /\ E[x].s <= sd
+ValByS(mm, sd) == \E j \in ValIdx(mm) : E[j].s <= sd
+GlobalMay(m, sd) == {mm \in Msgs \ {m} : ValByS(mm, sd) /\ HasAsync(mm) /\ ~FinalBeforeS(mm, sd) /\ ~SureInline(mm, sd)}
+EnteredByS(v, mm, sd) == \E j \in 1..N : E[j].k = "Enter" /\ E[j].v = v /\ E[j].m = mm /\ ~E[j].loc /\ E[j].s <= sd
 ExitedBeforeS(v, mm, sd) == \E j \in 1..N : E[j].k = "Exit" /\ E[j].v = v /\ E[j].m = mm /\ ~E[j].loc /\ E[j].s < sd
-VMay(v, m, d, sd) == {mm \in Msgs \ {m} : /\ v \in Appl(mm) /\ ValBefore(mm, d) /\ ~SureInline(mm, d, sd)
-                                          /\ IF EnteredBefore(v, mm, d) THEN ~ExitedBeforeS(v, mm, sd) ELSE ~FinalBeforeS(mm, sd)}
+VMay(v, m, sd) == {mm \in Msgs \ {m} : /\ v \in Appl(mm) /\ ValByS(mm, sd) /\ ~SureInline(mm, sd)
+                                       /\ IF EnteredByS(v, mm, sd) THEN ~ExitedBeforeS(v, mm, sd) ELSE ~FinalBeforeS(mm, sd)}
 ThrottleJustified(m, i) ==
     LET d  == DecisionIdx(m, i)
         sd == E[d].s
         tried == {v \in Appl(m) : Async(v) /\ ~\E j \in AsyncEnters(m, i) : E[j].v = v} IN     \* asynchronous validators that were not invoked
-    \/ AsyncEnters(m, i) = {} /\ Card(GlobalMay(m, d, sd)) >= cfg.gthr
-    \/ \E v \in tried : Card(VMay(v, m, d, sd)) >= VC(v).thr
+    \/ AsyncEnters(m, i) = {} /\ Card(GlobalMay(m, sd)) >= cfg.gthr
+    \/ \E v \in tried : Card(VMay(v, m, sd)) >= VC(v).thr
 
 ExactAt(i) ==
     LET e == E[i] IN
@@ -152,8 +156,8 @@ ExactAt(i) ==
     ELSE IF e.why = "T"
       THEN IF ThrottleJustified(e.m, i) THEN TRUE
            ELSE Report("P_X10b_ThrottleExact", e.m, "dropped as 'validation throttled' although neither the global nor an applicable validator's throttle was exhausted",
-                       [mayhold |-> Card(GlobalMay(e.m, DecisionIdx(e.m, i), E[DecisionIdx(e.m, i)].s)), cap |-> cfg.gthr,
-                        v |-> {<<v, Card(VMay(v, e.m, DecisionIdx(e.m, i), E[DecisionIdx(e.m, i)].s)), VC(v).thr>> : v \in {u \in Appl(e.m) : Async(u)}}])
+                       [mayhold |-> Card(GlobalMay(e.m, E[DecisionIdx(e.m, i)].s)), cap |-> cfg.gthr,
+                        v |-> {<<v, Card(VMay(v, e.m, E[DecisionIdx(e.m, i)].s)), VC(v).thr>> : v \in {u \in Appl(e.m) : Async(u)}}])
     ELSE TRUE
 
 -----------------------------------------------------------------------------
@@ -235,6 +239,12 @@ Quiescent ==
              IF \E j \in OpenRemote(N) : E[j].m = m THEN TRUE
              ELSE Report("P_X10f_WorkConserving", m, "a message taken by a worker has no outcome and is inside no validator", [kind |-> "stuck", a |-> 0, b |-> 0])
         /\ FiresAtEnd
+        \* validateTopic gives up on the siblings of a validator that rejected: their context has ended by now
+        /\ \A j \in OpenRemote(N) :
+             IF (Async(E[j].v) /\ \E f \in FinalIdx(E[j].m) : f > j /\ E[f].k = "Rej" /\ E[f].why = "R")
+                  => \E x \in (j + 1)..N : E[x].k = "Ctx" /\ SameInv(E[x], E[j]) THEN TRUE
+             ELSE Report("P_X10e_CancelOnReject", E[j].m, "a sibling validator rejected the message and the context of a validator still running was not cancelled",
+                         [kind |-> "orphan", a |-> E[j].v, b |-> 0])
     /\ X.parked =>
         \* (event loop parked by the scenario: accepted messages back up in sendMsg; only the two-sided bound holds)
         \* messages whose validators have all returned wait for the hand-off: sendMsg buffers cfg.sendCap of them, the others
